@@ -9,7 +9,8 @@ CONSTANTS MaxReqs,
 Shapes == {[hl |-> 2, bl |-> b, expect100 |-> e, close |-> c, hclose |-> hc, bad |-> bd, big |-> bg] :
               b \in {0, 3}, e \in BOOLEAN, c \in BOOLEAN, hc \in BOOLEAN, bd \in BOOLEAN, bg \in BOOLEAN}
 \* the peer may close in the middle of the last request
-CutLast(rs, cut) == IF cut THEN [rs EXCEPT ![Len(rs)].partial = TRUE] ELSE rs
+CutLast(rs, cut) == IF cut /\ rs[Len(rs)].bodyLen > 0 THEN [rs EXCEPT ![Len(rs)].partial = TRUE, ![Len(rs)].end = @ - 1]
+                    ELSE IF cut THEN [rs EXCEPT ![Len(rs)].partial = TRUE, ![Len(rs)].end = @ - 1] ELSE rs
 Sane == {s \in Shapes : (s.expect100 => s.bl > 0) /\ (s.big => s.bl > 0) /\ ~(s.bad /\ s.big) /\ ~(s.bad /\ s.expect100)
                          /\ ~(s.hclose /\ (s.close \/ s.bad \/ s.big \/ s.expect100))}
 
